@@ -219,7 +219,7 @@ var menus = map[string][]string{
 	"batch":    {"read", "read", "readMessage", "readMessage", "offset", "hwm", "throttle", "partition", "err", "close"},
 	"client":   {"metadata", "listOffsets", "produce", "fetch", "createTopics", "offsetFetch", "offsetCommit", "listGroups", "describeGroups", "apiVersions", "consumerOffsets", "closeIdle", "envAddBroker", "envDropBroker", "envMoveLeader"},
 	"balancer": {"balance", "balance", "balanceNilKey", "balanceOtherPartitions"},
-	"codec":    {"roundtrip", "roundtrip", "compress", "decompress", "name"},
+	"codec":    {"roundtrip", "roundtrip", "compress", "decompress", "name", "doubleClose"},
 }
 
 var variants = map[string][]string{
@@ -697,6 +697,17 @@ func (e *env) exec(thread int, op Op) {
 		case "name":
 			e.cod.Name()
 			e.cod.Code()
+		case "doubleClose":
+			// Close twice (an explicit Close plus a deferred one is common, the library's own v1 record-set writer does it)
+			var buf bytes.Buffer
+			w := e.cod.NewWriter(&buf)
+			w.Write(payload(1 + op.Arg%3000))
+			w.Close()
+			w.Close()
+			r := e.cod.NewReader(&buf)
+			io.Copy(io.Discard, r)
+			r.Close()
+			r.Close()
 		}
 	}
 }
